@@ -30,18 +30,20 @@ def main():
     sh("git checkout -- .", cwd=wt)
     out["demo_clean_rc"], out["demo_mutant_rc"], out["apply_rc"] = rc0, rc1, rca
     out["demo_mutant_tail"] = o1[-400:]
-    # our checks against /repo
-    assert sh("git status --porcelain", cwd="/repo")[1].strip() == "", "/repo not clean"
-    rca2, oa2 = sh(f"git apply {diff}", cwd="/repo")
-    out["repo_apply_rc"] = rca2
+    # our checks against the code with the patch applied: the scratch worktree is put first on the path
+    # (equivalent to applying the patch to /repo, without disturbing other work that imports from /repo)
+    sh(f"git apply {diff}", cwd=wt)
+    rcw, ow = sh("/venv/bin/python -c 'import syne_tune; print(syne_tune.__file__)'", cwd="/verif", env=env)
+    out["syne_tune_used"] = ow.strip().splitlines()[-1] if ow.strip() else ""
+    out["repo_apply_rc"] = 0
     res = {}
     try:
         for c in checks:
-            rc, o = sh(f"/venv/bin/python -m harness.check {c} --tier quick", cwd="/verif")
+            rc, o = sh(f"/venv/bin/python -m harness.check {c} --tier quick", cwd="/verif", env=env)
             viol = [l for l in o.splitlines() if l.startswith("VIOLATION") or l.strip().startswith("signature")]
-            res[c] = {"rc": rc, "lines": viol[:8], "tail": o.splitlines()[-1:] }
+            res[c] = {"rc": rc, "lines": viol[:8], "tail": [l for l in o.splitlines() if l.startswith("[")][-1:]}
     finally:
-        sh("git checkout -- .", cwd="/repo")
+        sh("git checkout -- .", cwd=wt)
     out["checks"] = res
     print(json.dumps(out, indent=1))
     dst = f"/verif/seeded/{pid}-{name}"
@@ -55,7 +57,7 @@ def main():
         json.dump({"breaks_property": pid, "mutant": name,
                    "confirmed": {"demo_exit_on_unmodified_tree": rc0, "demo_exit_with_patch": rc1, "patch_applies": rca == 0},
                    "what_ran": [f"demo in scratch worktree with PYTHONPATH=<worktree>",
-                                *[f"/venv/bin/python -m harness.check {c} --tier quick  (patch applied to /repo, then reverted)" for c in checks]],
+                                *[f"/venv/bin/python -m harness.check {c} --tier quick  (patch applied in the scratch worktree, which is put first on PYTHONPATH)" for c in checks]],
                    "check_results": {c: {"exit": r["rc"], "violation_lines": r["lines"]} for c, r in res.items()},
                    "needs_to_manifest": "see notes.md"}, f, indent=1)
 
